@@ -235,5 +235,8 @@ _dispatch_time_nanoseconds_since_epoch(dispatch_time_t when)
 	}
 
 	// Up time or monotonic time (which also has its top bit set).
-	return _dispatch_get_nanoseconds() + _dispatch_timeout(when);
+	// Read the clock the deadline is expressed on first: whatever elapses
+	// until the wall clock is read then makes the result late, never early.
+	uint64_t timeout = _dispatch_timeout(when);
+	return _dispatch_get_nanoseconds() + timeout;
 }
